@@ -70,6 +70,9 @@ pub struct Scn {
     /// anew when it arrives again
     #[serde(default)]
     pub fdt_again_after_jump: bool,
+    /// object_receive_once = false
+    #[serde(default)]
+    pub receive_once_off: bool,
 }
 
 /// The datagram as it is delivered: flute's own, or with EXT_TIME re-encoded as SCT-High only.
@@ -119,6 +122,10 @@ pub fn gen(rng: &mut Rng, _tier: Tier) -> Scn {
         let v = *rng.pick(&big);
         offsets_s.push(if rng.chance(0.5) { v } else { -v });
     }
+    // a receiver whose clock was never set: before the UNIX epoch (57 to 100 years behind)
+    if rng.chance(0.08) {
+        offsets_s.push(-*rng.pick(&[1_800_000_000i64, 1_900_000_000, 2_210_000_000, 3_155_000_000]));
+    }
     let check = rng.chance(0.85);
     // Expires = 4294967295 exactly (the largest 32-bit NTP second, 2036-02-07): publish second T0 -> this duration
     let duration_s = if rng.chance(0.03) { 4_294_967_295u64 - 2_208_988_800 - crate::sdrv::t0_us() / 1_000_000 } else { duration_s };
@@ -147,6 +154,7 @@ pub fn gen(rng: &mut Rng, _tier: Tier) -> Scn {
         many_instances: if rng.chance(0.12) { rng.range(9, 24) as u8 } else { 0 },
         time_ext_without_sct: if rng.chance(0.3) { rng.range(1, 3) as u8 } else { 0 },
         fdt_again_after_jump: rng.chance(0.5),
+        receive_once_off: rng.chance(0.25),
     }
 }
 
@@ -159,6 +167,7 @@ fn fdt_again(scn: &Scn, t_f: u64, t_o: u64, lost: bool) -> bool {
 fn receive_with_offset(scn: &Scn, ctx: &Ctx, sess: &Session, offset_s: i64, t_f: u64, lost: Option<(usize, usize)>) -> ((usize, usize, usize), Vec<String>) {
     let mut recv = RecvSpec::basic();
     recv.expiry_check = scn.check;
+    recv.receive_once = !scn.receive_once_off;
     recv.object_timeout_ms = Some(1_000_000_000);
     let monitor = Monitor::new(ctx, true, WriterFaults::default(), "r0");
     let mut rr = RecvRun::new(&recv, ctx, monitor.clone(), false, "r0");
@@ -271,6 +280,8 @@ fn run_two(scn: &Scn, ctx: &Ctx, scratch: &Path) {
     for off in &scn.offsets_s {
         let mut recv = RecvSpec::basic();
         recv.expiry_check = scn.check;
+        recv.receive_once = !scn.receive_once_off;
+    recv.receive_once = !scn.receive_once_off;
         recv.object_timeout_ms = Some(1_000_000_000);
         let monitor = Monitor::new(ctx, true, WriterFaults::default(), "r0");
         let mut rr = RecvRun::new(&recv, ctx, monitor.clone(), false, "r0");
@@ -364,6 +375,8 @@ fn run_many(scn: &Scn, ctx: &Ctx, scratch: &Path) {
     for off in &scn.offsets_s {
         let mut recv = RecvSpec::basic();
         recv.expiry_check = scn.check;
+        recv.receive_once = !scn.receive_once_off;
+    recv.receive_once = !scn.receive_once_off;
         recv.object_timeout_ms = Some(1_000_000_000);
         let monitor = Monitor::new(ctx, true, WriterFaults::default(), "r0");
         let mut rr = RecvRun::new(&recv, ctx, monitor.clone(), false, "r0");
@@ -635,6 +648,7 @@ impl Prop for C19 {
         push(&|n| n.ext_time_extra = 0);
         push(&|n| n.time_ext_without_sct = 0);
         push(&|n| n.fdt_again_after_jump = false);
+        push(&|n| n.receive_once_off = false);
         push(&|n| n.many_instances = if n.many_instances > 11 { 11 } else { n.many_instances });
         push(&|n| n.id_wrap = false);
         push(&|n| n.a_before_newer = false);
